@@ -40,9 +40,20 @@ func (c17) Exec(c Case) []string {
 		q = stanza.NewUnAckQueue()
 	}
 	var obs []string
+	scratch := &stanza.UnAckedStz{} // one object re-used by every `pushsame`: the queue must hold copies
 	for _, op := range c.Ops {
 		var r string
 		switch op[0] {
+		case "pushsame":
+			scratch.Id, scratch.Stz = 7, unhx(op[1])
+			q.Push(scratch)
+			r = ""
+		case "pushpeek":
+			// re-queue the head: Push(Peek()); on an empty queue Peek gives nothing and nothing is pushed
+			if e := q.Peek(); e != nil {
+				q.Push(e)
+			}
+			r = ""
 		case "push":
 			q.Push(&stanza.UnAckedStz{Id: 999, Stz: unhx(op[1])}) // the Id of the argument must be ignored
 			r = ""
@@ -74,6 +85,10 @@ func (c17) Generate(rng *rand.Rand, tier string, st *Stats) []Case {
 	var cases []Case
 	// corpus: numbering must continue after the queue was drained (F-10)
 	cases = append(cases, Case{ID: "corpus-drain", Ops: [][]string{{"push", hx("a")}, {"pop"}, {"push", hx("b")}, {"popn", "5"}, {"push", hx("c")}}})
+	// the queue holds copies: a caller re-using one object, or re-queuing the head, changes nothing already queued
+	cases = append(cases, Case{ID: "corpus-alias", Ops: [][]string{{"pushsame", hx("a")}, {"pushsame", hx("b")}, {"pushsame", hx("c")}, {"peekn", "3"}, {"pushpeek"}, {"peekn", "9"}, {"pop"}, {"pushpeek"}, {"popn", "9"}}})
+	// "everything": n far beyond the length
+	cases = append(cases, Case{ID: "corpus-huge-n", Ops: [][]string{{"push", hx("a")}, {"push", hx("b")}, {"peekn", "4611686018427387903"}, {"peekn", "9223372036854775807"}, {"popn", "9223372036854775807"}, {"popn", "4611686018427387903"}, {"peekn", "1000"}}})
 	// bounded-exhaustive: all sequences up to length L over a small op alphabet
 	alphabet := [][]string{
 		{"push", hx("a")}, {"push", hx("b")}, {"pop"}, {"popn", "-1"}, {"popn", "0"}, {"popn", "1"}, {"popn", "2"},
@@ -113,6 +128,16 @@ func (c17) Generate(rng *rand.Rand, tier string, st *Stats) []Case {
 		size := 0
 		for j := 0; j < ln; j++ {
 			switch x := rng.Intn(10); {
+			case x < 4 && rng.Intn(6) == 0:
+				ops = append(ops, []string{"pushsame", hx(randPayload(rng))})
+				size++
+				st.Inc("op_pushsame")
+			case x < 4 && rng.Intn(8) == 0:
+				ops = append(ops, []string{"pushpeek"})
+				if size > 0 {
+					size++
+				}
+				st.Inc("op_pushpeek")
 			case x < 4:
 				ops = append(ops, []string{"push", hx(randPayload(rng))})
 				size++
